@@ -37,6 +37,7 @@ func init() {
 		"(R8) a guarded field, or the slice/map it holds (including in-place sorts and element stores done by callees), is modified only with the mutex held exclusively.",
 		func(c *Ctx) {
 			runLockRules(c, "C20", c20Scope, true)
+			checkCacheNeverEmptied(c, "C20.R12 readers-never-see-an-empty-cache")
 			// (R7) handles derived from one another that share guarded state share the lock object
 			checkSharedStateSharedLock(c, "C20.R7 shared-state-shared-lock", c20Scope, 1)
 		})
@@ -1028,4 +1029,33 @@ func calleeWritesReceiver(g *ssa.Function, depth int) bool {
 		}
 	}
 	return false
+}
+
+// checkCacheNeverEmptied — R12. Chain.LastBlock() is read without further synchronisation by the
+// RPC handlers, the generator tick and the syncer while the consensus goroutine reverts blocks;
+// every one of them dereferences the answer. Each method of the block cache is atomic, but a
+// removal that pops the last cached block and refills the cache in later critical sections
+// leaves a window in which the tip is nil, then a block far below the tip. Rule: in RemoveBlock a
+// pop of the cache happens only where more than one block is cached (the other way out replaces
+// the content in one critical section).
+func checkCacheNeverEmptied(c *Ctx, rule string) {
+	p := c.P
+	rb := c.Anchor("pkg/blockchain.(*Chain).RemoveBlock")
+	if rb == nil {
+		return
+	}
+	n := 0
+	for _, name := range []string{"(*blockchain.DataAccess).RemoveCache", "(*blockchain.blockCache).pop"} {
+		for _, rc := range CallsIn(rb, name) {
+			n++
+			gf := factsOf(rc.Fn)
+			ok := gf.EveryPathHas(rc.Call.Block(), func(f Fact) bool {
+				return f.IsCmp && f.Entails(CmpSpec{A: Matcher{"cache length", func(t *Term) bool {
+					return strings.Contains(t.String(), ".len(") || strings.Contains(t.String(), ".size")
+				}}, NoB: true, Rel: GE, D: 2})
+			})
+			c.Require(rule, FuncKey(rb)+": "+name, p.InstrPos(rc.Call), "the last cached block is never popped on its own: a pop is guarded by 'more than one block cached'", ok, "a concurrent LastBlock() answers nil between this pop and the refill")
+		}
+	}
+	c.MinInstances(rule, n, 1)
 }
